@@ -3,6 +3,7 @@ package checks
 import (
 	"bytes"
 	"fmt"
+	"io"
 	iofs "io/fs"
 	"os"
 	"os/exec"
@@ -20,9 +21,9 @@ import (
 )
 
 type c20Opts struct {
-	Type     string   `json:"type"`  // ext4 ext3 ext2
-	Block    int      `json:"block"` // 1024 2048 4096
-	Inode    int      `json:"inode"` // 128 256
+	Type     string   `json:"type"`               // ext4 ext3 ext2
+	Block    int      `json:"block"`              // 1024 2048 4096
+	Inode    int      `json:"inode"`              // 128 256
 	Features []string `json:"features,omitempty"` // -O list, e.g. "^64bit", "sparse_super2"
 	SizeMB   int      `json:"size_mb"`
 	Index    bool     `json:"index"` // run e2fsck -fyD afterwards (hash-indexed directories)
@@ -55,16 +56,41 @@ type c20Case struct {
 }
 
 type c20File struct {
-	path    string
-	dir     bool
-	link    string
-	data    []byte // expected full content (holes = zeros)
-	mode    uint32
-	uid     int
-	gid     int
-	mtime   int64
-	xattrs  map[string]string
-	class   string
+	path   string
+	dir    bool
+	link   string
+	data   []byte // expected full content (holes = zeros)
+	mode   uint32
+	uid    int
+	gid    int
+	mtime  int64
+	xattrs map[string]string
+	class  string
+	// huge sparse file: too large to hold in memory, verified by probes
+	hugeSize int64
+	hugeRuns [][2]int64
+	hugeSeed uint64
+}
+
+func hugeRunData(seed uint64, i int, n int64) []byte {
+	d := gen.PRFBytes(seed+uint64(i), int(n))
+	for k := range d {
+		d[k] |= 1
+	}
+	return d
+}
+
+// hugeExpect: the expected bytes of [off, off+n) of a huge sparse file.
+func (f *c20File) hugeExpect(off, n int64) []byte {
+	exp := make([]byte, n)
+	for i, r := range f.hugeRuns {
+		lo, hi := max(off, r[0]), min(off+n, r[0]+r[1])
+		if lo < hi {
+			d := hugeRunData(f.hugeSeed, i, r[1])
+			copy(exp[lo-off:hi-off], d[lo-r[0]:hi-r[0]])
+		}
+	}
+	return exp
 }
 
 // writeSparse creates a file with data runs at the given offsets (holes elsewhere).
@@ -161,6 +187,28 @@ func c20BuildTree(root string, shape string, r gen.R, o c20Opts, big bool) ([]*c
 			return nil, err
 		}
 		add(&c20File{path: "hole_last.bin", data: exp, class: "sparse-file"})
+	case "huge":
+		// data on both sides of the 2 GiB and 4 GiB file offsets (31/32-bit byte offsets) of a 5 GiB sparse file
+		const G = int64(1) << 30
+		runs := [][2]int64{{0, bs}, {2*G - bs, 2 * bs}, {3*G + 5*bs, bs}, {4*G - bs, bs}, {4 * G, 3 * bs}, {4*G + 1025*bs, bs}, {5*G - 2*bs, bs}}
+		size := 5*G + bs/2
+		fp := filepath.Join(root, "huge_sparse.bin")
+		fh, err := os.Create(fp)
+		if err != nil {
+			return nil, err
+		}
+		if err := fh.Truncate(size); err != nil {
+			fh.Close()
+			return nil, err
+		}
+		for i, r := range runs {
+			if _, err := fh.WriteAt(hugeRunData(4242, i, r[1]), r[0]); err != nil {
+				fh.Close()
+				return nil, err
+			}
+		}
+		fh.Close()
+		add(&c20File{path: "huge_sparse.bin", class: "sparse-file-with-data-beyond-4GiB", hugeSize: size, hugeRuns: runs, hugeSeed: 4242})
 	case "links":
 		for i, l := range []int{1, 30, 59, 60, 61, 200, 1000} {
 			if l >= int(bs) {
@@ -391,6 +439,83 @@ func c20Run(c core.Case, env *core.Env) core.Result {
 			res.Count("verified.directories", 1)
 			continue
 		}
+		if f.hugeSize > 0 {
+			if fi.Size() != f.hugeSize {
+				fail("wrong-size", cause, "%s: size %d reported as %d", f.path, f.hugeSize, fi.Size())
+				return res
+			}
+			// probes: every data run, its surroundings, and the holes whose offsets alias a data run modulo 2^31 / 2^32
+			bs := int64(o.Block)
+			type probe struct{ off, n int64 }
+			var probes []probe
+			for _, r := range f.hugeRuns {
+				probes = append(probes, probe{r[0], r[1]}, probe{max(r[0]-100, 0), r[1] + 200})
+				for _, m := range []int64{1 << 31, 1 << 32} {
+					for _, q := range []int64{r[0] % m, r[0]%m + m, r[0] + m} {
+						if q != r[0] && q+bs <= f.hugeSize {
+							probes = append(probes, probe{q, bs})
+						}
+					}
+				}
+			}
+			probes = append(probes, probe{f.hugeSize - bs/2 - 10, bs/2 + 10})
+			bad := false
+			for _, pr := range probes {
+				n := min(pr.n, f.hugeSize-pr.off)
+				exp := f.hugeExpect(pr.off, n)
+				got := make([]byte, n)
+				var rerr error
+				var rn int
+				if pi := core.Guard(func() {
+					h, e := fs.OpenFile(f.path, os.O_RDONLY)
+					if e != nil {
+						rerr = e
+						return
+					}
+					defer h.Close()
+					if _, e := h.Seek(pr.off, io.SeekStart); e != nil {
+						rerr = e
+						return
+					}
+					for tries := 0; rn < len(got) && tries < 10000; tries++ {
+						k, e := h.Read(got[rn:])
+						rn += k
+						if e != nil {
+							if e != io.EOF {
+								rerr = e
+							}
+							break
+						}
+					}
+				}); pi != nil {
+					fail("read-panic", pi.Top+":"+pi.Class+"/"+cause, "reading %s at offset %d panicked: %s", f.path, pr.off, pi.Msg)
+					return res
+				}
+				res.Count("huge.probes", 1)
+				if rerr != nil {
+					if unsupported {
+						res.Count("per_file_error_on_unsupported_feature", 1)
+						bad = true
+						break
+					}
+					fail("read-error", cause, "reading %d bytes of %s at offset %d: %v", n, f.path, pr.off, rerr)
+					return res
+				}
+				if int64(rn) != n || !bytes.Equal(got, exp) {
+					where := "a hole"
+					if !bytes.Equal(exp, make([]byte, n)) {
+						where = "a data run"
+					}
+					fail("wrong-data", cause, "%s (5 GiB sparse file): %d bytes read at offset %d (%.3f GiB, %s), first difference at +%d", f.path, rn, pr.off, float64(pr.off)/float64(1<<30), where, firstDiffBytes(got[:rn], exp))
+					return res
+				}
+			}
+			if !bad {
+				res.Count("verified.files", 1)
+				res.Mark("file class " + f.class)
+			}
+			continue
+		}
 		if fi.Size() != int64(len(f.data)) {
 			fail("wrong-size", cause, "%s: size %d reported as %d", f.path, len(f.data), fi.Size())
 			return res
@@ -458,13 +583,13 @@ var _ = syscall.Stat_t{}
 
 func init() {
 	core.Register(&core.Check{
-		ID:    "C20",
-		Level: "exploration",
-		Rule: "host trees (regular files of boundary sizes, a directory of 400 (thorough: 5000) entries later hash-indexed by e2fsck -fyD, sparse files with 2/6/30/420 separate data runs so that extent trees get interior nodes, files beginning or ending with a hole, fast and slow symlinks, modes/owners/times on every node, in-inode and block xattrs set with debugfs ea_set) are put into images by the reference mke2fs -d over a fixed option grid: ext4 with block 1k/2k/4k, inode 128/256, ^64bit, ^flex_bg, ^metadata_csum, ^dir_index, ^huge_file, sparse_super2, ^has_journal, plus ext3 and ext2 images without extents; ext4.Read then walks the image with bounded read loops: tree, contents (holes as zeros), sizes, modes, owners, mtimes, link targets and xattrs must equal the input; refusing an image is allowed (except mke2fs's default feature set); per-file errors are allowed only on block-mapped (ext2/ext3) images; wrong data, panics and reads that never finish are violations; non-trivial = an image the library agreed to open; distinct = distinct (options, shape)",
+		ID:          "C20",
+		Level:       "exploration",
+		Rule:        "host trees (regular files of boundary sizes, a directory of 400 (thorough: 5000) entries later hash-indexed by e2fsck -fyD, sparse files with 2/6/30/420 separate data runs so that extent trees get interior nodes, files beginning or ending with a hole, a 5 GiB sparse file with data runs on both sides of the 2 GiB and 4 GiB offsets (verified by seek+read probes of every run, its surroundings and the holes whose offsets alias a run modulo 2^31 and 2^32), fast and slow symlinks, modes/owners/times on every node, in-inode and block xattrs set with debugfs ea_set) are put into images by the reference mke2fs -d over a fixed option grid: ext4 with block 1k/2k/4k, inode 128/256, ^64bit, ^flex_bg, ^metadata_csum, ^dir_index, ^huge_file, sparse_super2, ^has_journal, plus ext3 and ext2 images without extents; ext4.Read then walks the image with bounded read loops: tree, contents (holes as zeros), sizes, modes, owners, mtimes, link targets and xattrs must equal the input; refusing an image is allowed (except mke2fs's default feature set); per-file errors are allowed only on block-mapped (ext2/ext3) images; wrong data, panics and reads that never finish are violations; non-trivial = an image the library agreed to open; distinct = distinct (options, shape)",
 		Assumptions: []string{"mke2fs/debugfs/e2fsck 1.47.0 are the reference producer; every image is verified clean by e2fsck before the library reads it", "the option grid is fixed (not seeded), so the set of findings on a given tree does not depend on VERIF_SEED"},
-		MinSigs:   map[string]int{"quick": 8, "thorough": 40},
-		NeedMarks: []string{"options default-features", "shape bigdir", "shape extents", "shape links"},
-		CPUSec:    900,
+		MinSigs:     map[string]int{"quick": 8, "thorough": 40},
+		NeedMarks:   []string{"options default-features", "file class sparse-file-with-data-beyond-4GiB", "shape bigdir", "shape extents", "shape links"},
+		CPUSec:      900,
 		Cases: func(seed int64, tier string) []core.Case {
 			r := gen.New(0xC20C20) // fixed grid
 			var cs []core.Case
@@ -472,7 +597,7 @@ func init() {
 				cs = append(cs, core.MkCase(fmt.Sprintf("%s-%s-%d", o.pred(), shape, len(cs)), "mke2fs", r.Int63(), c20Case{Opts: o, Shape: shape, Big: big}))
 			}
 			def := c20Opts{Type: "ext4", Block: 4096, Inode: 256, SizeMB: 64, Index: true}
-			for _, sh := range []string{"basic", "bigdir", "extents", "sparse", "links", "xattrs"} {
+			for _, sh := range []string{"basic", "bigdir", "extents", "sparse", "links", "xattrs", "huge"} {
 				add(def, sh, tier == "thorough")
 			}
 			variants := []c20Opts{
@@ -493,6 +618,9 @@ func init() {
 				if tier == "thorough" {
 					for _, sh := range []string{"basic", "bigdir", "extents", "sparse", "links", "xattrs"} {
 						add(v, sh, false)
+					}
+					if v.Type == "ext4" {
+						add(v, "huge", false)
 					}
 				} else {
 					add(v, shapes[i%len(shapes)], false)
